@@ -668,3 +668,21 @@ package main
 //@ func field:go.universe.tf/metallb/speaker.layer2Controller.onStatusChange
 //@   trusted
 //@   modifies nothing
+
+// bgpController.SetConfig (abstracted mode): afterwards there is exactly one peer entry per configured peer, each with that
+// peer's configuration (an existing entry is reused only for a deeply equal configuration, a new one starts without
+// session), which is what syncPeers requires; sessions are closed only on entries that were not reused
+//@ func (*bgpController).SetConfig
+//@   abstract
+//@   requires c != nil && cfg != nil && (forall n string :: (n in cfg.Peers) ==> cfg.Peers[n] != nil)
+//@   requires [oldPeersOk] forall k int :: 0 <= k && k < len(c.peers) ==> c.peers[k] == nil || c.peers[k].cfg != nil
+//@   assert after append#1: [reused] len(ret) == len(newPeers) + 1 && ret[len(newPeers)] == ep && ep != nil && ep.cfg != nil
+//@   assert after append#2: [created] len(ret) == len(newPeers) + 1 && ret[len(newPeers)] != nil && ret[len(newPeers)].cfg == p && ret[len(newPeers)].session == nil
+//@   assert before Close: [leftover] p != nil
+//@   assert before syncBFDProfiles: [peersOk] forall k int :: 0 <= k && k < len(c.peers) ==> c.peers[k] != nil && c.peers[k].cfg != nil
+//@   loop 1 binds p
+//@   loop 1 invariant newPeers != nil && fresh(newPeers) && (forall k int :: 0 <= k && k < len(newPeers) ==> newPeers[k] != nil && newPeers[k].cfg != nil)
+//@   loop 1 invariant forall k int :: 0 <= k && k < len(c.peers) ==> c.peers[k] == nil || c.peers[k].cfg != nil
+//@   loop 2 binds ep
+//@   loop 2 invariant newPeers != nil && fresh(newPeers) && (forall k int :: 0 <= k && k < len(newPeers) ==> newPeers[k] != nil && newPeers[k].cfg != nil)
+//@   loop 2 invariant forall k int :: 0 <= k && k < len(c.peers) ==> c.peers[k] == nil || c.peers[k].cfg != nil
